@@ -233,13 +233,15 @@ fn handle(line: &str) -> Option<String> {
                 },
             });
         }
-        "iadd" | "isub" | "imul" | "idiv" | "irem" | "iremeuclid" | "ipow" | "ishl" | "ishr" => {
+        "iadd" | "isub" | "imul" | "idiv" | "irem" | "iremeuclid" | "ipow" | "ishl" | "ishr" | "iand" | "ior" => {
             let x: i64 = f.get(1)?.parse().ok()?;
             let y: i64 = f.get(2)?.parse().ok()?;
             let o = |r: Option<i64>| r.map(|v| v.to_string()).unwrap_or("none".into());
             return Some(match op {
                 "iadd" => o(x.checked_add(y)),
                 "isub" => o(x.checked_sub(y)),
+                "iand" => (x & y).to_string(),
+                "ior" => (x | y).to_string(),
                 "imul" => o(x.checked_mul(y)),
                 "idiv" => o(x.checked_div(y)),
                 "irem" => o(if y == 0 { None } else { Some(x.wrapping_rem(y)) }),
